@@ -66,7 +66,7 @@ def gen_seq(rng, quick):
         r = rng.random()
         y = rng.choice([1.0, 2.5, -3.0, 0.125, 7.0]) + rng.randint(0, 8) / 8
         sd = rng.choice([0.5, 1.0, 2.0, 0.25, 3.0])
-        if r < 0.07 and (he or not noise):
+        if r < 0.07:
             op = {"op": "add", "x": x, "y": y if rng.random() < 0.9 else None}
             if noise and rng.random() < 0.7:
                 op["sd"] = sd if rng.random() < 0.85 else None
@@ -239,7 +239,8 @@ def clauses(seq, impl, rep, tag):
             else:
                 y, sd, rec = op["y"], (op.get("sd", 1.0) if seq["noise"] else None), True
             if rec:
-                idx = next((k for k, e in enumerate(alog) if e[0] == x), None) if sd is not None else None
+                # merged only WITH SPECIFIED NOISE (the property's exception); a pre-evaluated addition to an unknown-noise logger is a new record
+                idx = next((k for k, e in enumerate(alog) if e[0] == x), None) if (sd is not None and seq["he"]) else None
                 if idx is not None:
                     alog[idx][2].append((y, sd))
                     merged_into = idx
